@@ -79,7 +79,8 @@ def run(ctx):
         ncl = [1, 3, 2][(cid[1] // 3) % 3]
         itab, btab, stab, info = excelgen.experiment(rng, base, n_inst=int(rng.integers(1, 3)), n_beads=int(rng.integers(1, 3)) if plot or rng.random() < 0.7 else 0,
                                                      n_samples=int(rng.integers(1, 4)) if plot else int(rng.integers(1, 5)),
-                                                     units_pool=['', 'Channel', 'RFI', 'a.u.', 'MEF', 'mef', 'au'], nfl=3 if ncl == 3 else None)
+                                                     units_pool=['', 'Channel', 'RFI', 'a.u.', 'MEF', 'mef', 'au'], nfl=3 if ncl == 3 else None,
+                                                     force_float_first=hist and cid[1] % 4 != 3)   # 2^18-resolution channel on the histogram sheet
         # clustering channels: 1, 2 or 3 of the instrument's fluorescence channels
         for bid in btab.index:
             fl = [c.strip() for c in itab.at[btab.at[bid, 'Instrument ID'], 'Fluorescence Channels'].split(',')]
